@@ -18,7 +18,9 @@ every input of that length.  A satisfiable pair is only a *candidate*: it is
 replayed with memoization on and off on the real textX, and only a real
 difference (accept/reject, model, error position) is reported.
 Supplement (witness replay): one witness per character class string, accepted
-and rejected, is parsed with memoization on and off.
+and rejected, is parsed with memoization on and off — on fresh metamodels, and
+in a session in which one memoizing and one plain metamodel parse rejected and
+accepted witnesses alternately (no state may survive a parse).
 """
 import time
 
@@ -63,9 +65,10 @@ def describe(mm, text, memo):
     return (kind, str(val)[:80])
 
 
-def differs_real(g, text):
-    a = describe(pegcheck.build_mm(g, memoization=False), text, False)
-    b = describe(pegcheck.build_mm(g, memoization=True), text, True)
+def differs_real(g, text, mms=None):
+    off, on = mms or (pegcheck.build_mm(g, memoization=False), pegcheck.build_mm(g, memoization=True))
+    a = describe(off, text, False)
+    b = describe(on, text, True)
     if a[0] != b[0]:
         return True, 'without memoization: %s, with memoization: %s' % (a[0], b[0])
     if a[0] == 'ok' and not modelcmp.same(a[1], b[1]):
@@ -213,8 +216,10 @@ def obligation(item):
         z.pop()
     res['verdict'] = verdict
     # supplement: memo on/off on one witness per class string (accepted and rejected)
+    by_cond = []
     for cond in (acc, Not(acc)):
         texts, exhausted, z2 = pegcheck.enumerate_classes(inp, cond, wlimit, timeout_ms)
+        by_cond.append(texts)
         for k in z.queries:
             z.queries[k] += z2.queries[k]
         z.secs += z2.secs
@@ -232,6 +237,21 @@ def obligation(item):
                     res['violations'].append({'grammar': g['name'], 'text': text, 'detail': detail,
                                               'conflicts': [d for k, d in cc][:3]})
                     res['verdict'] = 'violated'
+    # session: one memoizing and one plain metamodel parse the witnesses one
+    # after the other, rejected and accepted inputs alternating — memoization
+    # must stay transparent whatever the same metamodel parsed before
+    session = [t for pair in zip(by_cond[1], by_cond[0]) for t in pair][:12]
+    mms = (pegcheck.build_mm(g, memoization=False), pegcheck.build_mm(g, memoization=True))
+    for i, text in enumerate(session):
+        bad, detail = differs_real(g, text, mms)
+        res['validated'] += 2
+        if bad:
+            if not differs_real(g, text)[0] and len(res['violations']) < 3:
+                res['violations'].append({'grammar': g['name'], 'text': text, 'session': session[:i + 1],
+                                          'detail': 'after the same metamodels parsed %r: %s' % (session[:i], detail),
+                                          'conflicts': []})
+                res['verdict'] = 'violated'
+            break
     res['queries'] = z.queries
     res['solver_s'] = z.secs
     return res
@@ -296,4 +316,12 @@ def main():
 
 def replay(data):
     g = next(x for x in corpus.ALL + EXTRA if x['name'] == data['grammar'])
+    if data.get('session'):
+        mms = (pegcheck.build_mm(g, memoization=False), pegcheck.build_mm(g, memoization=True))
+        out = (False, 'session agrees')
+        for text in data['session']:
+            out = differs_real(g, text, mms)
+            if out[0]:
+                break
+        return out
     return differs_real(g, data['text'])
